@@ -60,24 +60,32 @@ type opInfo struct {
 	rlock bool
 	label string
 	vm    *vm.VirtualMachine
+	cond  func() bool // KEnv: enabled only while cond() holds (nil = always)
+	idle  bool        // KEnv: also enabled when nothing else is
 }
 
 // Task is one goroutine under the scheduler's control.
 type Task struct {
-	ID      int
-	Label   string
-	gid     int64
-	resume  chan struct{}
-	spawned chan struct{}
-	parent  *Task
-	cur     opInfo
-	ended   bool
-	parked  bool
-	Steps   int // vm instructions executed (counted by the step hook, scheduling point or not)
-	Points  int // scheduling points taken
-	clock   vc
-	exiting bool
+	ID         int
+	Label      string
+	gid        int64
+	resume     chan struct{}
+	spawned    chan struct{}
+	parent     *Task
+	cur        opInfo
+	ended      bool
+	parked     bool
+	Steps      int // vm instructions executed (counted by the step hook, scheduling point or not)
+	Points     int // scheduling points taken
+	clock      vc
+	exiting    bool
+	Urgent     bool // listed first in the canonical order when enabled (environment tasks whose default is "now")
+	openedIdle bool
+	waiting    int // consecutive decisions during which the task was enabled but not chosen
 }
+
+// Ended reports whether the task has finished.
+func (t *Task) Ended() bool { return t.ended }
 
 type event struct {
 	t    *Task
@@ -104,23 +112,29 @@ type Exec struct {
 	locs     map[string]*locState
 	cancelVC map[<-chan struct{}]vc
 
-	prefix  []int
-	Choices []int
-	Enabled [][]int
-	Costs   []int // preemption cost of each alternative index at each step is derived; here: whether last-run task was enabled
-	lastRun int
+	prefix           []int
+	Choices          []int
+	Enabled          [][]int
+	Costs            []int // preemption cost of each alternative index at each step is derived; here: whether last-run task was enabled
+	lastRun          int
 	lastStillEnabled []bool
 
-	Trace     []string
-	Races     []string
-	Deadlock  bool
-	Ambiguous string // a select with two ready cases was about to be granted
-	Leftover  []string
-	afterRoot int
-	rootEnded bool
-	State     any
-	Notes     []string // free for scenario bodies (e.g. results)
-	notesMu   sync.Mutex
+	Trace      []string
+	Races      []string
+	Deadlock   bool
+	Ambiguous  string // a select with two ready cases was about to be granted
+	Leftover   []string
+	Stopped    bool   // ended by Scenario.Stop
+	Stuck      string // a granted operation that was enabled only because its context was cancelled did not return
+	lastGrant  []string
+	afterRoot  int
+	rootEnded  bool
+	rootEndAt  int // index of the first decision taken after the body returned (-1: none)
+	envNext    bool
+	ctxGranted string // the last granted transition, if it was a blocking operation enabled only by a cancelled context
+	State      any
+	Notes      []string // free for scenario bodies (e.g. results)
+	notesMu    sync.Mutex
 }
 
 func (x *Exec) Note(s string) {
@@ -140,13 +154,25 @@ type Scenario struct {
 	// and typically consists of x.EnvPoint("label") followed by one action.
 	Env []func(x *Exec, st any)
 	// StepPoint decides whether a vm instruction of a tracked task is a scheduling point.
-	StepPoint func(t *Task, m *vm.VirtualMachine, code op.Code) bool
+	StepPoint func(x *Exec, t *Task, m *vm.VirtualMachine, code op.Code) bool
 	// Horizon: scheduling steps granted after the body has ended before the rest is abandoned.
 	Horizon int
 	// MaxSteps guards one execution.
 	MaxSteps int
 	// Check judges one finished execution; "" = fine. key is the canonical outcome of the execution.
 	Check func(x *Exec, st any) (violation string, key string)
+	// EnvUrgent: environment tasks come first in the canonical order as soon as they are enabled.
+	EnvUrgent bool
+	// Fair > 0: a task that has been enabled but not chosen for Fair consecutive decisions is
+	// scheduled next (listed first), so that spinning tasks cannot starve the others.
+	Fair int
+	// Stop, when set, is evaluated before every decision; true ends the execution at once (the
+	// remaining tasks are abandoned) and hands it to Check. Used to cut executions that have
+	// already shown what they can show (e.g. a task that keeps running long after a cancel).
+	Stop func(x *Exec, st any) bool
+	// NoBranchAfterRoot: decisions taken after the body has returned are not branched on (the
+	// drain phase runs under the default fair schedule only).
+	NoBranchAfterRoot bool
 	// AllowSelectRace: do not flag a channel operation whose context is cancelled while the channel case is also ready.
 	AllowSelectRace bool
 }
@@ -253,7 +279,7 @@ func hookStep(m *vm.VirtualMachine, code op.Code) {
 		return
 	}
 	t.Steps++
-	if x.sc.StepPoint != nil && x.sc.StepPoint(t, m, code) {
+	if x.sc.StepPoint != nil && x.sc.StepPoint(x, t, m, code) {
 		point(opInfo{kind: KStep, vm: m, label: op.GetInfo(code).Name})
 	}
 }
@@ -291,10 +317,19 @@ func hookGo(phase int) {
 	}
 }
 
+func (x *Exec) registerEnv(label string) {
+	x.envNext = x.sc.EnvUrgent
+	x.register(nil, label)
+}
+
 // register makes the calling goroutine a task and parks it until its first grant.
 func (x *Exec) register(par *Task, label string) {
 	t := &Task{gid: gid(), resume: make(chan struct{}), spawned: make(chan struct{}, 16), parent: par, Label: label}
 	x.mu.Lock()
+	if x.envNext {
+		t.Urgent = true
+		x.envNext = false
+	}
 	t.ID = len(x.tasks)
 	x.tasks = append(x.tasks, t)
 	x.byGid[t.gid] = t
@@ -328,6 +363,40 @@ func point(o opInfo) {
 
 // EnvPoint is a scheduling point for environment tasks and scenario bodies.
 func (x *Exec) EnvPoint(label string) { point(opInfo{kind: KEnv, label: label}) }
+
+// EnvGate is a scheduling point that is enabled only while cond() holds. cond is evaluated by
+// the scheduler while every task is parked.
+func (x *Exec) EnvGate(label string, cond func() bool) {
+	point(opInfo{kind: KEnv, label: label, cond: cond})
+}
+
+// EnvGateOrIdle is like EnvGate but the gate also opens when no other task is enabled
+// (the rest of the system is blocked). It reports whether it was opened by idleness.
+func (x *Exec) EnvGateOrIdle(label string, cond func() bool) bool {
+	point(opInfo{kind: KEnv, label: label, cond: cond, idle: true})
+	_, t := current()
+	return t != nil && t.openedIdle
+}
+
+// Task returns task i (0 = the body) or nil.
+func (x *Exec) Task(i int) *Task {
+	x.mu.Lock()
+	defer x.mu.Unlock()
+	if i < len(x.tasks) {
+		return x.tasks[i]
+	}
+	return nil
+}
+
+// Tasks returns a snapshot of all tasks.
+func (x *Exec) Tasks() []*Task {
+	x.mu.Lock()
+	defer x.mu.Unlock()
+	return append([]*Task{}, x.tasks...)
+}
+
+// RootEnded reports whether the body has returned.
+func (x *Exec) RootEnded() bool { return x.rootEnded }
 
 // Cancel cancels a context from an environment task and records the happens-before edge.
 func (x *Exec) Cancel(ctx context.Context, cancel context.CancelFunc) {
@@ -371,7 +440,7 @@ type transition struct {
 }
 
 func (x *Exec) quiesce() bool {
-	timer := time.NewTimer(20 * time.Second)
+	timer := time.NewTimer(10 * time.Second)
 	defer timer.Stop()
 	for x.running > 0 || x.pending > 0 {
 		select {
@@ -425,8 +494,12 @@ func (x *Exec) enabled() []transition {
 		}
 		o := t.cur
 		switch o.kind {
-		case KStart, KStep, KAccess, KClose, KHaltStore, KUnlock, KEnv:
+		case KStart, KStep, KAccess, KClose, KHaltStore, KUnlock:
 			out = append(out, transition{t: t})
+		case KEnv:
+			if o.cond == nil || o.cond() {
+				out = append(out, transition{t: t})
+			}
 		case KLock:
 			if o.rlock {
 				if x.owner[o.mu] == nil {
@@ -483,7 +556,35 @@ func (x *Exec) enabled() []transition {
 			// an unbuffered rendezvous is listed under the sender
 		}
 	}
+	if len(out) == 0 {
+		for _, t := range x.tasks {
+			if !t.ended && t.parked && t.cur.kind == KEnv && t.cur.idle {
+				t.openedIdle = true
+				out = append(out, transition{t: t})
+			}
+		}
+	}
 	return out
+}
+
+// opReady reports whether a blocking operation can complete without the context being cancelled.
+func (x *Exec) opReady(o opInfo) bool {
+	switch o.kind {
+	case KSend:
+		n, c := object.VerifChanState(o.ch)
+		return x.closed[o.ch] || (c > 0 && n < c)
+	case KRecv:
+		n, _ := object.VerifChanState(o.ch)
+		return x.closed[o.ch] || n > 0
+	case KWait:
+		select {
+		case <-o.done:
+			return true
+		default:
+			return false
+		}
+	}
+	return false
 }
 
 // daemon: a task that only waits for a context that may never be cancelled.
@@ -504,7 +605,7 @@ func (x *Exec) describe() string {
 func run(sc *Scenario, prefix []int) (x *Exec, engineErr string) {
 	x = &Exec{sc: sc, byGid: map[int64]*Task{}, events: make(chan event, 256), closed: map[*object.Chan]bool{}, closeVC: map[*object.Chan]vc{},
 		chanVCs: map[*object.Chan][]vc{}, owner: map[any]*Task{}, readers: map[any]int{}, released: map[any]vc{}, locs: map[string]*locState{},
-		cancelVC: map[<-chan struct{}]vc{}, prefix: prefix, lastRun: -1}
+		cancelVC: map[<-chan struct{}]vc{}, prefix: prefix, lastRun: -1, rootEndAt: -1}
 	if sc.Setup != nil {
 		x.State = sc.Setup()
 	}
@@ -532,7 +633,7 @@ func run(sc *Scenario, prefix []int) (x *Exec, engineErr string) {
 		env := env
 		lbl := fmt.Sprintf("env%d", i)
 		go func() {
-			x.register(nil, lbl)
+			x.registerEnv(lbl)
 			defer func() {
 				if atomic.LoadInt32(&x.abandon) == 0 {
 					x.events <- event{t: x.me(), kind: 1}
@@ -548,7 +649,15 @@ func run(sc *Scenario, prefix []int) (x *Exec, engineErr string) {
 	for {
 		if !x.quiesce() {
 			x.abandonAll()
-			return x, "no quiescence within 20 s (unknown goroutine or unhooked blocking call): " + x.describe()
+			if x.ctxGranted != "" {
+				x.Stuck = x.ctxGranted
+				return x, ""
+			}
+			return x, "no quiescence within 10 s (unknown goroutine or unhooked blocking call): " + x.describe()
+		}
+		if sc.Stop != nil && sc.Stop(x, x.State) {
+			x.Stopped = true
+			break
 		}
 		alive := 0
 		for _, t := range x.tasks {
@@ -560,6 +669,9 @@ func run(sc *Scenario, prefix []int) (x *Exec, engineErr string) {
 			break
 		}
 		if x.tasks[0].ended {
+			if !x.rootEnded {
+				x.rootEndAt = len(x.Choices)
+			}
 			x.rootEnded = true
 			x.afterRoot++
 			if x.afterRoot > horizon {
@@ -580,17 +692,42 @@ func run(sc *Scenario, prefix []int) (x *Exec, engineErr string) {
 			x.Deadlock = true
 			break
 		}
-		// canonical order: the last-run task first if still enabled, then ascending ids
+		// canonical order: a starved task first (fairness), then urgent environment tasks, then the
+		// last-run task if still enabled, then ascending ids
 		order := make([]int, 0, len(en))
+		used := make([]bool, len(en))
 		lastEnabled := false
-		for i, tr := range en {
+		for _, tr := range en {
 			if tr.t.ID == x.lastRun {
-				order = append(order, i)
 				lastEnabled = true
 			}
 		}
+		if x.sc.Fair > 0 {
+			best := -1
+			for i, tr := range en {
+				if tr.t.waiting >= x.sc.Fair && (best < 0 || tr.t.waiting > en[best].t.waiting) {
+					best = i
+				}
+			}
+			if best >= 0 {
+				order = append(order, best)
+				used[best] = true
+			}
+		}
 		for i, tr := range en {
-			if tr.t.ID != x.lastRun {
+			if !used[i] && tr.t.Urgent {
+				order = append(order, i)
+				used[i] = true
+			}
+		}
+		for i, tr := range en {
+			if !used[i] && tr.t.ID == x.lastRun {
+				order = append(order, i)
+				used[i] = true
+			}
+		}
+		for i := range en {
+			if !used[i] {
 				order = append(order, i)
 			}
 		}
@@ -611,6 +748,20 @@ func run(sc *Scenario, prefix []int) (x *Exec, engineErr string) {
 		x.Enabled = append(x.Enabled, ids)
 		x.lastStillEnabled = append(x.lastStillEnabled, lastEnabled)
 		tr := en[order[c]]
+		first := en[order[0]].t
+		deliberate := lastEnabled || first.Urgent || (x.sc.Fair > 0 && first.waiting >= x.sc.Fair)
+		for _, e := range en {
+			if e.t != tr.t && e.t != tr.partner {
+				e.t.waiting++
+			}
+		}
+		tr.t.waiting = 0
+		if tr.partner != nil {
+			tr.partner.waiting = 0
+		}
+		// a deviation costs one unit when the default was deliberate: the last-run task could have
+		// continued, or the scheduler put a starved / urgent task first
+		x.lastStillEnabled[len(x.lastStillEnabled)-1] = deliberate
 		x.lastRun = tr.t.ID
 		x.grant(tr)
 		steps++
@@ -658,6 +809,13 @@ func (x *Exec) grant(tr transition) {
 	o := t.cur
 	x.Trace = append(x.Trace, fmt.Sprintf("t%d:%s:%s", t.ID, o.kind, o.label+o.field))
 	x.hb(tr)
+	x.ctxGranted = ""
+	switch o.kind {
+	case KSend, KRecv, KWait, KSleep:
+		if tr.partner == nil && ctxDone(o.ctx) && !x.opReady(o) {
+			x.ctxGranted = fmt.Sprintf("t%d(%s) %s", t.ID, t.Label, o.kind)
+		}
+	}
 	switch o.kind {
 	case KClose:
 		x.closed[o.ch] = true
@@ -885,6 +1043,19 @@ func Explore(sc *Scenario, maxBound, limit int) *Stats {
 				st.EngineError = eerr
 				return false
 			}
+			if x.Stuck != "" {
+				// confirm before believing a time-based observation
+				y, e2 := run(sc, x.Choices)
+				if e2 != "" || y.Stuck == "" {
+					st.EngineError = "a task did not reach its next scheduling point within 10 s, and this did not reproduce: " + x.Stuck + " " + e2
+					return false
+				}
+				st.Executions++
+				st.Violation = "a blocked operation did not return although its context was cancelled: " + x.Stuck
+				st.ViolationSched = x.Choices
+				st.ViolationTrace = x.Trace
+				return false
+			}
 			sig := fmt.Sprint(x.Choices)
 			if !seen[sig] {
 				seen[sig] = true
@@ -918,6 +1089,9 @@ func Explore(sc *Scenario, maxBound, limit int) *Stats {
 				}
 			}
 			for i := len(prefix); i < len(x.Choices); i++ {
+				if sc.NoBranchAfterRoot && x.rootEndAt >= 0 && i >= x.rootEndAt {
+					break
+				}
 				cost := preemptions(x, i)
 				for alt := 1; alt < len(x.Enabled[i]); alt++ {
 					c := cost
